@@ -25,7 +25,7 @@ TraceReset == /\ IsEvent("trace")
               /\ script' = [i \in DOMAIN Trace[l].script |-> [ev |-> Trace[l].script[i].ev, k |-> Trace[l].script[i].k]]
 TraceBegin == IsEvent("begin") /\ (Boot1 \/ Boot2 \/ Boot3 \/ Run) /\ pending' # None /\ pending'.name = Trace[l].name
 TraceCommit == /\ IsEvent("commit") /\ WriteMeta /\ pending.name = Trace[l].name
-               /\ disk'.buckets = Trace[l].buckets /\ disk'.blocks = Trace[l].blocks /\ disk'.pool = Trace[l].pool /\ disk'.history = Trace[l].history
+               /\ disk'.buckets = Trace[l].buckets /\ disk'.blocks = Trace[l].blocks /\ Cardinality(disk'.pool) = Trace[l].pool /\ disk'.history = Trace[l].history
 TraceSkip == IsEvent("skip") /\ Run /\ pending' = None /\ pending = None /\ script[next].ev = Trace[l].kind
 TraceCrashEv == IsEvent("crash") /\ Crash
 TraceDone == IsEvent("done") /\ Finish /\ disk = Final
